@@ -1,0 +1,51 @@
+//go:build verif
+
+package biscuit
+
+// Read-only accessors and a raw block constructor for the verification
+// harness in /verif. Add-only; compiled only with -tags verif.
+
+import (
+	"github.com/biscuit-auth/biscuit-go/v2/datalog"
+)
+
+// VerifBlockContent returns copies of a block's D-level content.
+func VerifBlockContent(b *Block) (symbols datalog.SymbolTable, facts []datalog.Fact, rules []datalog.Rule, checks []datalog.Check, context string, version uint32) {
+	symbols = append(datalog.SymbolTable{}, (*b.symbols)...)
+	if b.facts != nil {
+		facts = append([]datalog.Fact{}, (*b.facts)...)
+	}
+	rules = append([]datalog.Rule{}, b.rules...)
+	checks = append([]datalog.Check{}, b.checks...)
+	return symbols, facts, rules, checks, b.context, b.version
+}
+
+// VerifTokenBlocks returns the token's blocks and a copy of its cumulative symbol table.
+func VerifTokenBlocks(b *Biscuit) (authority *Block, blocks []*Block, symbols datalog.SymbolTable) {
+	return b.authority, append([]*Block{}, b.blocks...), append(datalog.SymbolTable{}, (*b.symbols)...)
+}
+
+// VerifNewBlock builds a raw block from D-level content without going through a builder.
+func VerifNewBlock(symbols datalog.SymbolTable, facts []datalog.Fact, rules []datalog.Rule, checks []datalog.Check, context string, version uint32) *Block {
+	s := append(datalog.SymbolTable{}, symbols...)
+	f := datalog.FactSet(append([]datalog.Fact{}, facts...))
+	return &Block{symbols: &s, facts: &f, rules: rules, checks: checks, context: context, version: version}
+}
+
+// VerifAuthorizerWorld returns copies of the authorizer's current world facts and rules,
+// its symbol table, and the dirty flag.
+func VerifAuthorizerWorld(a Authorizer) (facts []datalog.Fact, rules []datalog.Rule, symbols datalog.SymbolTable, dirty bool) {
+	v := a.(*authorizer)
+	facts = append([]datalog.Fact{}, (*v.world.Facts())...)
+	rules = append([]datalog.Rule{}, v.world.Rules()...)
+	symbols = append(datalog.SymbolTable{}, (*v.symbols)...)
+	return facts, rules, symbols, v.dirty
+}
+
+// VerifAuthorizerLimits returns the run limits of the authorizer's current world and of its base world.
+func VerifAuthorizerLimits(a Authorizer) (world [2]int, base [2]int) {
+	v := a.(*authorizer)
+	wf, wi := datalog.VerifLimits(v.world)
+	bf, bi := datalog.VerifLimits(v.baseWorld)
+	return [2]int{wf, wi}, [2]int{bf, bi}
+}
